@@ -172,6 +172,8 @@ func plans(id, tier string) (Plan, bool) {
 			{Pkg: pkgV2, Harness: "c08_chunks", Params: map[bool]string{false: "inputs=1;deviations=3", true: "inputs=3;deviations=3"}[th], Shards: pick(4, 16)},
 			{Pkg: pkgV2, Harness: "c08_pads", Shards: pick(6, 16)},
 			{Pkg: pkgV2, Harness: "c08_faults", Shards: pick(6, 16)},
+			{Pkg: pkgV2, Harness: "c08_faults", Params: "corpus=empty", Shards: pick(4, 16)},
+			{Pkg: pkgV2, Harness: "c08_faults", Params: "corpus=one-empty-document", Shards: pick(4, 16)},
 			{Pkg: pkgV2, Harness: "c08_stutter", Shards: pick(4, 16)},
 			{Pkg: pkgV2, Harness: "c08_short", Shards: pick(4, 16)},
 			// histories with AddContent between queries: MatchFrom and Match of one classifier must still agree
@@ -277,6 +279,7 @@ func plans(id, tier string) (Plan, bool) {
 			{Pkg: pkgSC, Harness: "c13_history", Instr: "v1", Shards: pick(4, 16)},
 			{Pkg: pkgSC, Harness: "c13_many", Instr: "v1", Shards: pick(8, 16)},
 			{Pkg: pkgSC, Harness: "c13_twice", Instr: "v1", Shards: pick(8, 16)},
+			{Pkg: pkgSC, Harness: "c13_longglue", Instr: "v1", Shards: 8},
 		}...)}, true
 	case "C14":
 		var jobs []Job
